@@ -84,6 +84,32 @@ def _st_sqlite3_table(path):
     _mk(path, "CREATE TABLE sqlite3_meta (a text); INSERT INTO sqlite3_meta VALUES ('keep me');")
 
 
+def _st_virtual_fts4(path):
+    # only a virtual table (and its shadow tables) with rows; no ordinary table, no view
+    _mk(path, "CREATE VIRTUAL TABLE docs USING fts4(body); INSERT INTO docs VALUES ('keep me');")
+
+
+def _st_virtual_rtree(path):
+    _mk(path, "CREATE VIRTUAL TABLE rt USING rtree(id, minx, maxx); INSERT INTO rt VALUES (1, 0.0, 1.0);")
+
+
+def _st_virtual_fts5(path):
+    # python's SQLite has fts5, the go-sqlite3 build of the CLI does not: the file cannot even be inspected
+    _mk(path, "CREATE VIRTUAL TABLE docs5 USING fts5(body); INSERT INTO docs5 VALUES ('keep me');")
+
+
+def _st_shadow_only(path):
+    # shadow tables left behind after the virtual table's own row was removed
+    _mk(path, """CREATE VIRTUAL TABLE docs USING fts4(body); INSERT INTO docs VALUES ('keep me');
+PRAGMA writable_schema = 1;
+DELETE FROM sqlite_master WHERE name = 'docs';
+PRAGMA writable_schema = 0;""")
+
+
+def _st_stat1_only(path):
+    _mk(path, "CREATE TABLE s (a); CREATE INDEX si ON s (a); INSERT INTO s VALUES (1); ANALYZE; DROP TABLE s;")
+
+
 def _st_orphan_index(path):
     _mk(path, """CREATE TABLE o (a);
 CREATE INDEX oi ON o (a);
@@ -109,7 +135,12 @@ DEV_STATES = {
     "revisions-only": ("nonempty", _st_revisions_only, True),
     "libsql-table": ("nonempty", _st_libsql_table, True),
     "sqlite3-table": ("nonempty", _st_sqlite3_table, True),
+    "virtual-fts4": ("nonempty", _st_virtual_fts4, True),
+    "virtual-rtree": ("nonempty", _st_virtual_rtree, True),
+    "shadow-tables-only": ("nonempty", _st_shadow_only, True),
+    "virtual-fts5-unknown-module": ("malformed", _st_virtual_fts5, True),
     "seq-only": ("internal", _st_seq_only, True),
+    "stat1-only": ("internal", _st_stat1_only, True),
     "orphan-index": ("malformed", _st_orphan_index, True),
     # WAL-mode file: a reader may legitimately create/remove -wal/-shm; file hash is a counter only.
     "tables-wal": ("nonempty", _st_tables_wal, False),
@@ -260,6 +291,11 @@ POISON_KINDS = {
     "inspect-fails:fk-ref-column": (["CREATE TABLE zz_pa (id integer PRIMARY KEY)",
                                      "CREATE TABLE zz_pf (id integer PRIMARY KEY, p integer REFERENCES zz_pf (nope))"], False, False),
     "inspect-fails:type-size": (["CREATE TABLE zz_ps (a varchar(99999999999999999999))"], False, False),
+    "inspect-fails:type-scale": (["CREATE TABLE zz_pd (a int, x decimal(10,999999999999999999999))"], False, False),
+    # addIndexes: a partial index whose WHERE keyword is lower-case ("missing partial WHERE clause")
+    "inspect-fails:index-lowercase-where": (["CREATE TABLE zz_pi (id integer PRIMARY KEY, name text, active int)",
+                                             "INSERT INTO zz_pi (name, active) VALUES ('n', 1)",
+                                             "CREATE INDEX zz_pii ON zz_pi (name) where active = 1"], False, False),
     "inspect-fails:quote-in-table-name": (["CREATE TABLE \"zz_p'q\" (a int)"], False, False),
 }
 TX_KINDS.update(POISON_KINDS)
